@@ -548,9 +548,9 @@ func (r *rig) predict(st *step) (outcome, func(got outcome)) {
 			return outcome{code: "isdir"}, nil
 		case c.kind != kindFile:
 			return outcome{code: "inval"}, nil
-		case c.cas && st.Len == len(c.data):
-			return outcome{code: "refused-or-ok"}, nil
 		case c.cas:
+			// Also when the requested size is the size the file already
+			// has: "every attempt to ... truncate ... is refused".
 			return outcome{code: "refused"}, func(outcome) { r.noteRefused(st.Op) }
 		}
 		return outcome{code: "ok"}, func(outcome) {
